@@ -641,7 +641,7 @@ class HelicityDecayP(HelicityDecayNP):
             H = tf.concat(
                 [
                     H_part,
-                    self.parity_term * H_part[::-1, (n_c - 2) // 2 :: -1],
+                    self.parity_term * H_part[::-1, : n_c // 2][:, ::-1],
                 ],
                 axis=1,
             )
